@@ -6,7 +6,8 @@
    its start the handler does  clientIDAddrMap.Set(clientID, clientAddr(client_ip)).
    When KCP establishes a session for a ClientID, acceptStreams does
    clientIDAddrMap.Get(clientID) and every stream of that session is handed out as a
-   SnowflakeClientConn whose RemoteAddr() is that value.  Set and Get are atomic (mutex),
+   SnowflakeClientConn whose RemoteAddr() is that value (addr is a local variable of
+   acceptStreams, read once before the AcceptStream loop).  Set and Get are atomic (mutex),
    so any interleaving of the goroutines involved is a list of events. *)
 From Coq Require Import List NArith Bool Arith.
 From Snow Require Import Lib.Wire Model.ClientIdRing Model.ClientAddr.
@@ -17,7 +18,8 @@ Inductive addr := ANil | AStr (s : bytes).
 
 Inductive event :=
 | Carrier (cid : N) (p : param)      (* a carrier presenting cid starts *)
-| Accept (cid : N).                  (* a session for cid is established *)
+| Accept (cid : N)                   (* a session for cid is established (and its first stream accepted) *)
+| Stream (k : nat).                  (* the k-th established session (0-based) opens a further stream *)
 
 Definition sring := ring addr.
 
@@ -33,18 +35,53 @@ Definition accept_v0 (r : sring) (cid : N) : addr :=
 Definition accept (r : sring) (cid : N) : addr :=
   match get addr ANil r cid with Some a => a | None => AStr [] end.
 
-(* the RemoteAddr() of the connection accepted for each Accept event, in order *)
+(* the address acceptStreams looks up for each Accept event (= session), in order *)
 Fixpoint attributions (acc : sring -> N -> addr) (r : sring) (evs : list event) : list addr :=
   match evs with
   | [] => []
   | Carrier cid p :: evs' => attributions acc (carrier_step r cid p) evs'
   | Accept cid :: evs' => acc r cid :: attributions acc r evs'
+  | Stream _ :: evs' => attributions acc r evs'
+  end.
+
+(* every connection the listener hands out, in order: (index of its session, RemoteAddr()).
+   sess = the local variable addr of the acceptStreams goroutine of each established session.
+   A Stream event naming a session that does not exist yields no connection. *)
+Fixpoint conns (acc : sring -> N -> addr) (r : sring) (sess : list addr) (evs : list event) : list (nat * addr) :=
+  match evs with
+  | [] => []
+  | Carrier cid p :: evs' => conns acc (carrier_step r cid p) sess evs'
+  | Accept cid :: evs' => let a := acc r cid in (List.length sess, a) :: conns acc r (sess ++ [a]) evs'
+  | Stream k :: evs' =>
+      match nth_error sess k with
+      | Some a => (k, a) :: conns acc r sess evs'
+      | None => conns acc r sess evs'
+      end
+  end.
+
+(* NOT the code: the variant that looks the ClientID up again for every accepted stream
+   (sess remembers the ClientID instead of the address).  Only used to show that the theorem
+   "all connections of a session carry the address of its establishment" tells the two apart. *)
+Fixpoint conns_perstream (acc : sring -> N -> addr) (r : sring) (sess : list N) (evs : list event) : list (nat * addr) :=
+  match evs with
+  | [] => []
+  | Carrier cid p :: evs' => conns_perstream acc (carrier_step r cid p) sess evs'
+  | Accept cid :: evs' => (List.length sess, acc r cid) :: conns_perstream acc r (sess ++ [cid]) evs'
+  | Stream k :: evs' =>
+      match nth_error sess k with
+      | Some cid => (k, acc r cid) :: conns_perstream acc r sess evs'
+      | None => conns_perstream acc r sess evs'
+      end
   end.
 
 Definition run_v0 (cap : nat) (evs : list event) : list addr :=
   attributions accept_v0 (new addr ANil cap) evs.
 Definition run (cap : nat) (evs : list event) : list addr :=
   attributions accept (new addr ANil cap) evs.
+Definition run_conns_v0 (cap : nat) (evs : list event) : list (nat * addr) :=
+  conns accept_v0 (new addr ANil cap) [] evs.
+Definition run_conns (cap : nat) (evs : list event) : list (nat * addr) :=
+  conns accept (new addr ANil cap) [] evs.
 
 (* server.go handleConn: addr := conn.RemoteAddr().String() — a method call on a nil
    interface value panics in a goroutine without recover: the process dies. *)
@@ -57,12 +94,13 @@ Fixpoint carriers_rev_aux (acc : list (N * param)) (evs : list event) : list (N 
   | [] => acc
   | Carrier cid p :: evs' => carriers_rev_aux ((cid, p) :: acc) evs'
   | Accept _ :: evs' => carriers_rev_aux acc evs'
+  | Stream _ :: evs' => carriers_rev_aux acc evs'
   end.
 
 Definition carriers_rev := carriers_rev_aux [].
 
 Definition ev_step (r : sring) (e : event) : sring :=
-  match e with Carrier cid p => carrier_step r cid p | Accept _ => r end.
+  match e with Carrier cid p => carrier_step r cid p | Accept _ => r | Stream _ => r end.
 
 (* the map after the events pre, starting from an empty map of capacity cap *)
 Definition state_after (cap : nat) (pre : list event) : sring := fold_left ev_step pre (new addr ANil cap).
@@ -80,4 +118,5 @@ Fixpoint spec_attributions (cap : nat) (cs : list (N * param)) (evs : list event
   | [] => []
   | Carrier cid p :: evs' => spec_attributions cap ((cid, p) :: cs) evs'
   | Accept cid :: evs' => spec_attr cap cs cid :: spec_attributions cap cs evs'
+  | Stream _ :: evs' => spec_attributions cap cs evs'
   end.
